@@ -461,11 +461,17 @@ func derivedFromLookup(v ssa.Value, m ssa.Value, key string, depth int) bool {
 	switch x := v.(type) {
 	case *ssa.Lookup:
 		s, ok := core.ConstString(x.Index)
+		if !ok && keyResolver != nil {
+			s, ok = keyResolver(x.Index)
+		}
 		return ok && s == key && core.Canon(x.X) == core.Canon(m)
 	case *ssa.Extract:
 		if call, ok := x.Tuple.(*ssa.Call); ok {
 			if ok2, handled := derivedThroughHelper(call, x.Index, m, key, depth); handled {
 				return ok2
+			}
+			if j, ok := decodesParam(call, x.Index); ok {
+				return derivedFromLookup(call.Call.Args[j], m, key, depth+1)
 			}
 		}
 		return derivedFromLookup(x.Tuple, m, key, depth+1)
@@ -484,6 +490,9 @@ func derivedFromLookup(v ssa.Value, m ssa.Value, key string, depth int) bool {
 		}
 		if ok2, handled := derivedThroughHelper(x, 0, m, key, depth); handled {
 			return ok2
+		}
+		if j, ok := decodesParam(x, 0); ok {
+			return derivedFromLookup(x.Call.Args[j], m, key, depth+1)
 		}
 	case *ssa.UnOp:
 		if x.Op == token.MUL {
@@ -511,6 +520,25 @@ func credentialArg(v ssa.Value, fn *ssa.Function, key string) bool {
 	walk = func(v ssa.Value, depth int) bool {
 		if depth > 6 {
 			return false
+		}
+		// element k of a local array filled by a loop over a constant table of keys
+		// (credentials[i] = checked string of cap[keys[i]])
+		if ld, ok := v.(*ssa.UnOp); ok && ld.Op == token.MUL {
+			if ia, ok := ld.X.(*ssa.IndexAddr); ok {
+				if al, ok := ia.X.(*ssa.Alloc); ok && al.Parent() == fn {
+					if k, isK := core.ConstInt(ia.Index); isK {
+						return arrayElem(al, k, func(val, idx ssa.Value) bool {
+							if idx == nil {
+								return walk(val, depth+1)
+							}
+							old := keyResolver
+							keyResolver = func(kv ssa.Value) (string, bool) { return constTableEntry(kv, idx, k) }
+							defer func() { keyResolver = old }()
+							return walk(val, depth+1)
+						})
+					}
+				}
+			}
 		}
 		v = core.Canon(v)
 		switch x := v.(type) {
@@ -660,6 +688,10 @@ func ruleClientMap(c *core.Ctx, capMap *types.Named, chanCap *types.Var) {
 				}
 				if keyParams[core.Canon(lk.Index)] {
 					nLookups++
+					continue
+				}
+				if rows := constTableAll(lk.Index, credKey); rows > 0 {
+					nLookups += rows // one lookup per row of the constant table of keys
 					continue
 				}
 				bad = "the client map is looked up under a key other than the user/token keys (at " + c.Pos(lk.Pos()) + ")"
@@ -846,4 +878,209 @@ func derivedInHelper(v ssa.Value, m ssa.Value, key string, keyParams map[ssa.Val
 		}
 	}
 	return false
+}
+
+// decodesParam: result idx of the call to a helper of package bus is, on every
+// return that does not report failure, one of the helper's parameters seen
+// through type assertions, Value() accessors and conversions (stateOf(v)
+// decoding the integer held by a value): the index of that parameter.
+func decodesParam(call *ssa.Call, idx int) (int, bool) {
+	h := call.Call.StaticCallee()
+	if h == nil || len(h.Blocks) == 0 || h.Pkg == nil || !strings.HasSuffix(h.Pkg.Pkg.Path(), "/bus") || h.Name() == "Value" {
+		return 0, false
+	}
+	var origin func(v ssa.Value, depth int) ssa.Value
+	origin = func(v ssa.Value, depth int) ssa.Value {
+		if depth > 8 {
+			return nil
+		}
+		v = core.StripConv(v)
+		switch x := v.(type) {
+		case *ssa.Parameter:
+			return x
+		case *ssa.Extract:
+			return origin(x.Tuple, depth+1)
+		case *ssa.TypeAssert:
+			return origin(x.X, depth+1)
+		case *ssa.Call:
+			if f := x.Call.StaticCallee(); f != nil && f.Name() == "Value" && len(x.Call.Args) == 1 {
+				return origin(x.Call.Args[0], depth+1)
+			}
+		case *ssa.Phi:
+			var o ssa.Value
+			for _, e := range x.Edges {
+				oe := origin(e, depth+1)
+				if oe == nil || (o != nil && o != oe) {
+					return nil
+				}
+				o = oe
+			}
+			return o
+		case *ssa.UnOp:
+			if x.Op == token.MUL {
+				if d := core.Canon(x); d != ssa.Value(x) {
+					return origin(d, depth+1)
+				}
+			}
+		}
+		return nil
+	}
+	var param ssa.Value
+	for _, r := range core.Returns(h) {
+		if idx >= len(r.Results) {
+			return 0, false
+		}
+		skip := false
+		for j := range r.Results {
+			if j == idx {
+				continue
+			}
+			if b, isConst := core.ConstBool(core.RetVal(r, j)); isConst && !b {
+				skip = true
+			}
+		}
+		if skip {
+			continue
+		}
+		o := origin(core.RetVal(r, idx), 0)
+		if o == nil || (param != nil && param != o) {
+			return 0, false
+		}
+		param = o
+	}
+	for i, hp := range h.Params {
+		if ssa.Value(hp) == param && i < len(call.Call.Args) {
+			return i, true
+		}
+	}
+	return 0, false
+}
+
+// keyResolver, when set, resolves a lookup key that is not a constant by
+// itself (an entry of a constant table indexed by a loop counter bound to a
+// known row).
+var keyResolver func(ssa.Value) (string, bool)
+
+// arrayElem: every store that can fill element k of local array al satisfies
+// ok (called with idx == nil for a store at constant index k, with the index
+// value for a store at a computed index, which then stands for k).
+func arrayElem(al *ssa.Alloc, k int64, ok func(val, idx ssa.Value) bool) bool {
+	if _, isArr := al.Type().Underlying().(*types.Pointer).Elem().Underlying().(*types.Array); !isArr {
+		return false
+	}
+	for _, r := range core.Referrers(al) {
+		ia, isIA := r.(*ssa.IndexAddr)
+		if !isIA {
+			if _, isLoad := r.(*ssa.UnOp); isLoad {
+				continue
+			}
+			if _, isDbg := r.(*ssa.DebugRef); isDbg {
+				continue
+			}
+			return false // the array escapes or is overwritten as a whole
+		}
+		for _, u := range core.Referrers(ia) {
+			st, isStore := u.(*ssa.Store)
+			if !isStore || st.Addr != ssa.Value(ia) {
+				if _, isLoad := u.(*ssa.UnOp); isLoad {
+					continue
+				}
+				return false
+			}
+			if ck, isK := core.ConstInt(ia.Index); isK {
+				if ck == k && !ok(st.Val, nil) {
+					return false
+				}
+				continue
+			}
+			if !ok(st.Val, ia.Index) {
+				return false
+			}
+		}
+	}
+	return true
+}
+
+// constTableEntry: kv is table[idx] of a local array of constant strings;
+// returns its row k.
+func constTableEntry(kv, idx ssa.Value, k int64) (string, bool) {
+	var base ssa.Value
+	switch x := kv.(type) {
+	case *ssa.Index:
+		if x.Index != idx {
+			return "", false
+		}
+		base = x.X
+	case *ssa.UnOp:
+		ia, ok := x.X.(*ssa.IndexAddr)
+		if !ok || x.Op != token.MUL || ia.Index != idx {
+			return "", false
+		}
+		base = ia.X
+	default:
+		return "", false
+	}
+	if ld, ok := base.(*ssa.UnOp); ok && ld.Op == token.MUL {
+		base = ld.X
+	}
+	al, ok := base.(*ssa.Alloc)
+	if !ok {
+		return "", false
+	}
+	out, found := "", false
+	good := arrayElem(al, k, func(val, i ssa.Value) bool {
+		if i != nil {
+			return false // the table is not constant
+		}
+		s, isS := core.ConstString(val)
+		if !isS {
+			return false
+		}
+		out, found = s, true
+		return true
+	})
+	return out, good && found
+}
+
+// constTableAll: kv is an entry of a local array that only ever holds constant
+// strings satisfying pred.
+func constTableAll(kv ssa.Value, pred func(string) bool) int {
+	var base ssa.Value
+	switch x := kv.(type) {
+	case *ssa.Index:
+		base = x.X
+	case *ssa.UnOp:
+		ia, ok := x.X.(*ssa.IndexAddr)
+		if !ok || x.Op != token.MUL {
+			return 0
+		}
+		base = ia.X
+	default:
+		return 0
+	}
+	if ld, ok := base.(*ssa.UnOp); ok && ld.Op == token.MUL {
+		base = ld.X
+	}
+	al, ok := base.(*ssa.Alloc)
+	if !ok {
+		return 0
+	}
+	arr, isArr := al.Type().Underlying().(*types.Pointer).Elem().Underlying().(*types.Array)
+	if !isArr {
+		return 0
+	}
+	n := int64(0)
+	for k := int64(0); k < arr.Len(); k++ {
+		found := false
+		good := arrayElem(al, k, func(val, i ssa.Value) bool {
+			s, isS := core.ConstString(val)
+			found = true
+			return i == nil && isS && pred(s)
+		})
+		if !good || !found {
+			return 0
+		}
+		n++
+	}
+	return int(n)
 }
